@@ -114,7 +114,12 @@ def validate(chk, events):
 
 
 def vkey(e, outcome):
-    return {"format": e["fmt"], "route": e["route"], "class": e["cls"], "sect": e["sect"], "kind": e["kind"], "outcome": outcome}
+    k = {"format": e["fmt"], "route": e["route"], "class": e["cls"], "sect": e["sect"], "kind": e["kind"], "outcome": outcome}
+    if e.get("newname"):
+        # a renamed section-table entry: whether the new name duplicates a listed section, is a valid unlisted one, or is
+        # no name at all are different damages (the recorded finding is about the second)
+        k["newname"] = e["newname"]
+    return k
 
 
 def run(chk, tier):
